@@ -11,6 +11,7 @@
   `pushPointer` — and the label positions of every literally written name in `gLabels`.
 -/
 import QV.Proofs.WriterSession
+import QV.Proofs.NameDecode
 
 namespace QV.C13
 open QV QV.Writer QV.ServerSafety
@@ -27,12 +28,13 @@ open QV QV.Writer QV.ServerSafety
   *denotes* the name it was given: the name stored at that position — read by following labels and
   pointers the way the writer itself reads prior names — matches the given name label by
   label) together with `C13_scan_correct`.
-  What is not proved: that the *independent* decoder `specDecodeName` reads the same labels
-  from those positions (`NameAt` follows pointers with "target < pointer position", the RFC
-  relation `Decodes` demands "target < start of the current chunk"; the writer only emits
-  targets below the start of the name being written, but that extra fact is not carried in
-  `NameAt`). The oracle closes that gap on every generated session (`paudit`: the audit and the
-  decoding are evaluated with `specDecodeMsg` on the model's and on the implementation's octets). -/
+  That the *independent* decoder `specDecodeName` reads the same labels from those positions is
+  `C13_targets_decode` / `C13_recorded_label_starts_decode`: `NameAt` follows pointers with "target
+  < pointer position" (what the writer's own scan needs), the RFC relation `Decodes` demands
+  "target < start of the chunk that contains the pointer"; the writer only emits targets below the
+  start of the name it is writing, and the invariant carries this (`NameAtC`, `WInv.clabs`): every
+  recorded label start begins a name of the RFC relation of at most 255 octets.
+  Hence `C13_holds : C13_full`. -/
 
 def C13_full : Prop :=
   ∀ (buf : Bytes) (limit : Nat) (s : State) (ops : List Op),
@@ -79,6 +81,45 @@ theorem C13_pointer_log_sound (buf : Bytes) (limit : Nat) (s : State)
 theorem C13_pointer_log_sound_finish (s : State) (hI : I s) (macFn : Tsig → List UInt8 → List UInt8)
     (hmac : MacLenOK macFn) : ∃ r s', finishWithMac macFn s = (.ok r, s') ∧ PtrLogOK s' :=
   finishWithMac_ok macFn hmac s hI
+
+/-! ## the independent decoder succeeds at every target -/
+
+/-- **At every recorded label start** of a valid writer state — in particular at every pointer
+    target and at every anchor — the independent RFC 1035 §4.1.4 decoder `specDecodeName`, run on
+    the message written so far, succeeds and reads exactly the labels stored there (a name of at
+    most 255 octets, every pointer going below the start of the chunk it ends). -/
+theorem C13_recorded_label_starts_decode (s : State) (hI : I s) (g : Nat) (hg : g ∈ s.gLabels) :
+    ∃ ls k, NameAtC (GL s) s.octets s.cursor g g ls ∧
+      Spec.specDecodeName (s.octets.extract 0 s.cursor) g = some (wireOf ls, ls.length + 1, k) :=
+  cstored_specDecodeName (hI.winv.clabs g hg) (Nat.le_trans hI.winv.cur_av hI.winv.av_size)
+
+/-- … so it succeeds at the target of every pointer emitted -/
+theorem C13_targets_decode (s : State) (hI : I s) (e : PtrEv) (he : e ∈ s.gPtrs) :
+    ∃ w n k, Spec.specDecodeName (s.octets.extract 0 s.cursor) e.target = some (w, n, k) := by
+  obtain ⟨_, _, _, _, hmem, _⟩ := hI.log e he
+  obtain ⟨ls, k, _, hd⟩ := C13_recorded_label_starts_decode s hI e.target hmem
+  exact ⟨_, _, _, hd⟩
+
+/-- **C13 holds**: for all sequences of calls that respect the hint contract, in all modes. -/
+theorem C13_holds : C13_full := by
+  intro buf limit s ops hnew hr s' e he
+  have hI : I s' := (run_I _ ops (new_i buf limit s hnew) hr).2
+  obtain ⟨h1, _, h3, h4, h5, _⟩ := hI.log e he
+  have hperm := C13_pointers_only_where_permitted buf limit s hnew ops e he
+  exact ⟨h1, h3, h4, h5, hperm.1, hperm.2, C13_targets_decode s' hI e he⟩
+
+/-! non-vacuity: a session that respects the contract and emits two pointers (owner = QNAME,
+    CNAME target sharing a suffix with it) -/
+
+def nvOps : List Op := [.addQuestion ⟨[[119, 119, 119], [97]]⟩ 1 1,
+  .addRr .answer (.direct .none) ⟨[[119, 119, 119], [97]]⟩ 5 1 60 [1, 98, 1, 97, 0] none]
+
+def nvS : State := match Writer.new (Array.replicate 64 0) 64 with | .ok s => s | _ => default
+
+example : Writer.new (Array.replicate 64 0) 64 = .ok nvS ∧ Respects { w := nvS } nvOps ∧
+    ((run { w := nvS } nvOps).1.w.gPtrs.map fun e => (e.pos, e.target)) = [(37, 16), (23, 12)] :=
+  ⟨rfl, ⟨(by decide : WName.WF ⟨[[119, 119, 119], [97]]⟩),
+    ⟨(by decide : WName.WF ⟨[[119, 119, 119], [97]]⟩), trivial⟩, trivial⟩, by decide +kernel⟩
 
 /-- **The heuristic scan is correct** (`write_compressed_unhinted_name`): with valid prior names
     it is computed without a panic; if it decides "the first `k` labels, then a pointer to `pp`",
